@@ -61,6 +61,24 @@ def near_misses(rng, el):
             ms.append(dict(base, list=("ordered-list" if ordered else "unordered-list", lvl + 1)))
         else:
             ms.append(dict(base, list=("ordered-list", 1)))
+    # matchers that combine two features: all must agree (right + right matches, right + wrong is a decoy)
+    if el.get("style_id") and el.get("style_name"):
+        ms.append(dict(base, style_id=el["style_id"], style_name=("=", el["style_name"].upper())))
+        ms.append(dict(base, style_id=el["style_id"], style_name=("=", el["style_name"] + "z")))
+        ms.append(dict(base, style_id=el["style_id"] + "q", style_name=("^=", el["style_name"][:2])))
+    if k == "p" and (el.get("style_id") or el.get("style_name")):
+        feats = ([{"style_id": el["style_id"]}] if el.get("style_id") else []) + \
+                ([{"style_name": ("=", el["style_name"])}, {"style_name": ("^=", el["style_name"][:3])}] if el.get("style_name") else [])
+        feat = rng.choice(feats)
+        num = el.get("numbering")
+        if num:
+            lvl, ordered = int(num[0]) + 1, num[1]
+            ms.append(dict(base, list=("ordered-list" if ordered else "unordered-list", lvl), **feat))
+            ms.append(dict(base, list=("unordered-list" if ordered else "ordered-list", lvl), **feat))
+            ms.append(dict(base, list=("ordered-list" if ordered else "unordered-list", lvl + 2), **feat))
+        else:
+            ms.append(dict(base, list=("unordered-list", 1), **feat))
+            ms.append(dict(base, list=("ordered-list", 2), **feat))
     other = {"p": "r", "r": "table", "table": "p"}[k]
     ms.append(dict(base, kind=other))
     rng.shuffle(ms)
@@ -118,9 +136,15 @@ def run(ctx):
         block, el = probe_element(rng, k, i)
         ms = near_misses(rng, el)
         lines = []
+        bang = set()       # indices of mappings whose path is `!`: the matched element disappears WITH its contents
+        with_note = (k == "r" and rng.random() < 0.5)
         for j, m in enumerate(ms):
             tagname = {"p": "div", "r": "span", "table": "table"}[k] if m["kind"] == k else "div"
-            lines.append((m, GS.print_matcher(m) + " => " + tagname + ".m%d%s" % (j, ":fresh" if k != "r" else "")))
+            if with_note and m["kind"] == k and rng.random() < 0.4:
+                bang.add(j)
+                lines.append((m, GS.print_matcher(m) + " => !"))
+            else:
+                lines.append((m, GS.print_matcher(m) + " => " + tagname + ".m%d%s" % (j, ":fresh" if k != "r" else "")))
         cut = rng.randint(0, len(lines))
         custom, embedded = lines[:cut], lines[cut:]
         incl_emb, incl_def = rng.random() < 0.8, rng.random() < 0.7
@@ -146,6 +170,10 @@ def run(ctx):
             sib = (X("w:p", {}, ([X("w:pPr", {}, ppr0)] if ppr0 else []) + [X("w:r", {}, [X("w:t", {}, [XT(el0["text"])])])]), el0)
             dist["with_sibling"] = dist.get("with_sibling", 0) + 1
         pkg.body = ([sib[0]] if sib else []) + [block]
+        if with_note:
+            # the probe run also holds a footnote reference: under a `!` mapping neither the marker nor the note may appear
+            block.children[0].children.append(X("w:footnoteReference", {"w:id": "2"}))
+            pkg.footnotes = [X("w:footnote", {"w:id": "2"}, [X("w:p", {}, [X("w:r", {}, [X("w:t", {}, [XT("notebody%d" % i)])])])])]
         if embedded or rng.random() < 0.3:
             pkg.embedded_style_map = "\n".join(l for _, l in embedded)
         opts = {"style_map": "\n".join(l for _, l in custom) if custom or rng.random() < 0.5 else None,
@@ -169,7 +197,9 @@ def run(ctx):
         elements = ([sib[1]] if sib else []) + [el]
         meta = {"body": [xml_json(b) for b in pkg.body], "element": el, "expected_marker": None if winner is None else "m%d" % winner,
                 "elements": [dict(e, numbering=list(e["numbering"]) if e.get("numbering") else None,
-                                  expected_marker=None if winner_of(e) is None else "m%d" % winner_of(e)) for e in elements],
+                                  expected_marker=None if winner_of(e) is None else "m%d" % winner_of(e),
+                                  dropped=(winner_of(e) in bang)) for e in elements],
+                "footnotes": [xml_json(x) for x in (pkg.footnotes or [])],
                 "same_kind_markers": sorted(same_kind), "custom": [l for _, l in custom], "embedded": [l for _, l in embedded],
                 "options": opts, "index": i}
         bad = None
@@ -181,7 +211,11 @@ def run(ctx):
                 w = winner_of(e)
                 chain = find_marker(forest, e["text"]) or ()
                 classes = [c for _, c in chain if c in same_kind]
-                if w is not None:
+                if w is not None and w in bang:
+                    txt = O.text_of_parsed(forest)
+                    if e["text"] in txt or "notebody" in txt or "footnote-2" in html.value:
+                        bad = "%s: a `!` mapping wins, but the element or something it contains (text, note marker, note) is in the output" % e["text"]
+                elif w is not None:
                     if e is el:
                         (dist.__setitem__("winner_custom", dist["winner_custom"] + 1) if w < cut
                          else dist.__setitem__("winner_embedded", dist["winner_embedded"] + 1))
@@ -223,6 +257,8 @@ def replay(ctx, rep):
                   for t, tbl in (("paragraph", STYLES), ("character", RSTYLES), ("table", TSTYLES)) for sid, nm in tbl]
     pkg.numbering = g.numbering_part()
     pkg.body = [gen_xml.xml_from_json(j) for j in r["body"]]
+    if r.get("footnotes"):
+        pkg.footnotes = [gen_xml.xml_from_json(j) for j in r["footnotes"]]
     if r["embedded"]:
         pkg.embedded_style_map = "\n".join(r["embedded"])
     data, _ = B.build(pkg)
@@ -233,6 +269,13 @@ def replay(ctx, rep):
     forest = O.strict_parse(html.value)
     rc = 0
     for e in r.get("elements") or [dict(r["element"], expected_marker=r.get("expected_marker"))]:
+        if e.get("dropped"):
+            txt = O.text_of_parsed(forest)
+            gone = e["text"] not in txt and "notebody" not in txt and "footnote-2" not in html.value
+            print("replay:", e["text"], "dropped with its contents:", gone)
+            if not gone:
+                rc = 1
+            continue
         chain = find_marker(forest, e["text"]) or ()
         classes = [c for _, c in chain if c in r["same_kind_markers"]]
         exp = [e["expected_marker"]] if e.get("expected_marker") else []
